@@ -611,7 +611,45 @@ def cont_check(dimkind, case, rec):
     rec.nontrivial = nops >= 2 and len(model) >= 2
 
 
+REV_AXIS = [["quad", 0, "+"], ["quad", 0, "-"], ["quad", 1, "+"], ["quad", 1, "-"], ["line", 0, "+"], ["line", 0, "-"]]
+
+
+def rev_strategy(ax, tier):
+    return st.fixed_dictionaries({"n": st.lists(st.integers(2, 4), min_size=2, max_size=2), "size": st.lists(fl(0.3, 2), min_size=2, max_size=2),
+                                  "dist": fl(0.05, 2), "off": fl(-2, 2), "nrev": st.integers(3, 9), "phi": st.sampled_from([30.0, 90.0, 180.0, 270.0, 360.0])})
+
+
+def rev_check(ax, case, rec):
+    """revolution of a section that lies on either side of the axis of revolution (the radial coordinate is y for axis 0 and
+    x for axis 1; lines are revolved about the origin of their only coordinate)"""
+    fem = import_felupe()
+    ct, axis, side = ax
+    sg = 1.0 if side == "+" else -1.0
+    if ct == "line":
+        lo = case["dist"] if sg > 0 else -case["dist"] - case["size"][0]
+        m = fem.mesh.Line(a=lo, b=lo + case["size"][0], n=case["n"][0] + 1)
+        comp = 0
+    else:
+        radial = 1 if axis == 0 else 0
+        a = [0.0, 0.0]
+        a[1 - radial] = case["off"]
+        a[radial] = case["dist"] if sg > 0 else -case["dist"] - case["size"][radial]
+        m = fem.Rectangle(a=tuple(a), b=tuple(np.array(a) + np.array(case["size"])), n=tuple(k + 1 for k in case["n"]))
+        comp = radial
+    M = abs(first_moment(np.array(m.points, float), np.array(m.cells), ct, comp))
+    phi = case["phi"]
+    n = max(case["nrev"], int(np.ceil(phi / 60.0)) + 1)
+    r = m.revolve(n=n, phi=phi, axis=axis) if ct == "quad" else m.revolve(n=n, phi=phi)
+    dth = np.deg2rad(phi) / (n - 1)
+    V = (n - 1) * np.sin(dth) * M  # polygonal (chord) body of revolution
+    vol = volumes(np.asarray(r.points, float), np.asarray(r.cells), r.cell_type)
+    rec.nontrivial = True
+    rec.close("covered-volume", abs(float(np.abs(vol).sum()) - V) / V, 1e-10, {"phi": phi, "n": n})
+    rec.close("orientation", max(0.0, float(-vol.min())) / V, 0.0, {"negative cells": int((vol < 0).sum()), "cells": int(len(vol))})
+
+
 FAMILIES = [
+    Family("revolve-side", REV_AXIS, rev_check, strategy=rev_strategy, n={"quick": 6, "thorough": 200}, chunk=6),
     Family("generators", GENS, gen_check, strategy=gen_strategy, n={"quick": 30, "thorough": 600}, chunk=100),
     Family("programs", ["line", "quad", "hexahedron"], prog_check, strategy=prog_strategy, n={"quick": 150, "thorough": 6000}, chunk=25),
     Family("containers", ["2d", "3d"], cont_check, strategy=cont_strategy, n={"quick": 60, "thorough": 2000}, chunk=30),
